@@ -176,7 +176,7 @@ Qed.
 (* everything the certificate uses about the observation of a conforming packet *)
 Record obs_facts (s o : tcp_sig) : Prop := {
   of_layout : t_olayout o = t_olayout s;
-  of_quirks : t_quirks o = t_quirks s;
+  of_quirks : t_quirks o = sig_quirks_for (t_version o) (t_quirks s);
   of_version : In (t_version o) (live_versions s);
   of_pclass : pclass_inst_b (t_pclass s) (t_pclass o) = true;
   of_ttl : exists i t, t_ittl s = TtlValue i /\ t_ittl o = TtlDistance t (i - t) /\ t <= i /\ i <= 255;
@@ -193,10 +193,10 @@ Record obs_facts (s o : tcp_sig) : Prop := {
   of_win_zero : distance_window_size (t_wsize o) (t_wsize s) (t_mss o) = Some 0 }.
 
 Theorem obs_char (k : tkind) (s : tcp_sig) (g : segment) :
-  seg_wf g -> live1_tcp_b s = true -> conforms_seg_b k s g = true -> kv6 s g = false -> K5 g = false ->
+  seg_wf g -> live1_tcp_b s = true -> conforms_seg_b k s g = true -> K5 g = false ->
   obs_facts s (spec_sig g).
 Proof.
-  intros WF LV C KV K5F. assert (WF' := WF). destruct WF' as (V & TT & V6 & V4).
+  intros WF LV C K5F. assert (WF' := WF). destruct WF' as (V & TT & V6 & V4).
   unfold live1_tcp_b in LV. repeat (apply andb_true_iff in LV; destruct LV as [LV ?]).
   rename H into WL, H0 into ZW, H1 into ZM, H2 into QL, H3 into LL. rename LV into TL.
   unfold conforms_seg_b in C. cbv zeta in C. repeat (apply andb_true_iff in C; destruct C as [C ?]).
@@ -205,23 +205,7 @@ Proof.
   { unfold K5 in K5F. apply orb_false_iff in K5F. destruct K5F as [B _]. exact B. }
   apply olayout_eqb_eq in CL.
   destruct (spec_sig_fields g) as (F1 & F2 & F3 & F4 & F5 & F6 & F7 & F8 & F9).
-  assert (QE : spec_quirks g (seg_items g) = t_quirks s).
-  { symmetry. apply sinc_ext.
-    - exact QL.
-    - apply sinc_filter. reflexivity.
-    - intros q. rewrite <- !qmem_In, qmem_spec_quirks.
-      unfold conf_quirks in CQ. rewrite forallb_forall in CQ. specialize (CQ q (canonical_all q)).
-      apply orb_true_iff in CQ. destruct CQ as [NA|EQ].
-      + apply negb_true_iff in NA.
-        assert (NS : qmem q (t_quirks s) = false).
-        { unfold kv6 in KV. apply negb_false_iff in KV. rewrite forallb_forall in KV.
-          destruct (qmem q (t_quirks s)) eqn:QM; [|reflexivity]. apply qmem_In in QM. rewrite (KV _ QM) in NA. discriminate. }
-        assert (NH : quirk_holds g (seg_items g) q = false).
-        { unfold quirk_applies in NA. destruct V as [VV|VV]; unfold seg_ver in *; rewrite VV in NA.
-          - destruct q; try discriminate. unfold quirk_holds. rewrite (V4 VV). reflexivity.
-          - destruct (V6 VV) as [DF MB]. destruct q; try discriminate; unfold quirk_holds; rewrite ?DF, ?MB, ?VV; reflexivity. }
-        rewrite NS, NH. tauto.
-      + apply eqb_prop in EQ. rewrite EQ. tauto. }
+  pose proof (conf_quirks_for s g WF QL CQ) as QE.
   assert (TSE : has_ts (seg_items g) = layout_ts (t_olayout s)).
   { rewrite <- CL. unfold layout_ts, spec_layout. symmetry. apply has_ts_layout. exact OB. }
   assert (INV : In (seg_ver g) (live_versions s)) by (apply in_live_versions; assumption).
@@ -251,15 +235,14 @@ Proof.
   - unfold tcp_decisive_mismatch_b. rewrite FL.
     replace (list_eqb tcp_option_eqb (t_olayout s) (t_olayout t)) with false by (apply negb_true_iff in R; symmetry; exact R).
     cbn. rewrite ?orb_true_r. reflexivity.
-  - unfold tcp_decisive_mismatch_b. rewrite FQ.
-    replace (list_eqb quirk_eqb (t_quirks s) (t_quirks t)) with false by (apply negb_true_iff in R; symmetry; exact R).
-    cbn. rewrite ?orb_true_r. reflexivity.
   - unfold tcp_decisive_mismatch_b. apply negb_true_iff in R.
-    assert (version_inst_b (t_version t) (t_version o) = false).
-    { destruct (version_inst_b (t_version t) (t_version o)) eqn:E; [|reflexivity].
-      assert (existsb (fun v => version_inst_b (t_version t) v) (live_versions s) = true)
-        by (apply existsb_exists; exists (t_version o); split; assumption). congruence. }
-    rewrite H. reflexivity.
+    destruct (version_inst_b (t_version t) (t_version o)) eqn:EV; [|reflexivity].
+    destruct (list_eqb quirk_eqb (t_quirks o) (sig_quirks_for (t_version o) (t_quirks t))) eqn:EQ; [|cbn; rewrite ?orb_true_r; reflexivity].
+    exfalso.
+    assert (existsb (fun v => version_inst_b (t_version t) v
+                              && list_eqb quirk_eqb (sig_quirks_for v (t_quirks s)) (sig_quirks_for v (t_quirks t))) (live_versions s) = true).
+    { apply existsb_exists. exists (t_version o). split; [exact FV|]. rewrite EV, <- FQ, EQ. reflexivity. }
+    congruence.
   - unfold tcp_decisive_mismatch_b.
     assert (pclass_inst_b (t_pclass t) (t_pclass o) = false).
     { unfold pclass_inst_b in *. destruct (t_pclass s), (t_pclass t), (t_pclass o); cbn in *; try discriminate; reflexivity. }
@@ -362,10 +345,10 @@ Theorem live1_one s o : obs_facts s o -> no_ws_scale0 s = true -> tcp_distance s
 Proof.
   intros [FL FQ FV FP (i & tt & TS & TO & TLE & I255) FO FM FW _ FZ] NW. rewrite tcp_distance_sum.
   assert (DM : tcp_decisive_mismatch_b s o = false).
-  { unfold tcp_decisive_mismatch_b. rewrite FL, FQ, FP.
+  { unfold tcp_decisive_mismatch_b. rewrite FL, <- FQ, FP.
     rewrite (eqb_refl_of _ olayout_eqb_eq), (eqb_refl_of _ quirks_eqb_eq).
     assert (version_inst_b (t_version s) (t_version o) = true).
-    { unfold live_versions in FV. apply filter_In in FV. destruct FV as [FV _]. unfold version_inst_b.
+    { unfold live_versions in FV. unfold version_inst_b.
       destruct (t_version s); cbn in FV; destruct FV as [E|FV]; try contradiction; try (destruct FV as [E|[]]); rewrite <- E; reflexivity. }
     rewrite H. reflexivity. }
   rewrite DM, TO, TS. cbn [distance_ttl]. unfold high_or, sat_add8.
@@ -373,6 +356,47 @@ Proof.
   rewrite FZ. cbn [obind]. f_equal.
   unfold c_olen, c_mss, c_wscale, pen_wscale. rewrite FO, N.eqb_refl, FM, FW.
   unfold no_ws_scale0 in NW. destruct (t_wscale s) as [[|?]|]; try discriminate. reflexivity.
+Qed.
+
+(* distance exactly 1 to an entry that writes scale `0`, for an observation without scale: the packet conforms to it *)
+Theorem one_conforms (k : tkind) (t : tcp_sig) (g : segment) :
+  seg_wf g -> conf_role k g = true -> spec_wscale (seg_items g) = None -> scale_is_zero t = true ->
+  tcp_distance t (spec_sig g) = Some 1 -> conforms_seg_b k t g = true.
+Proof.
+  intros (V & TT & _) R WN SZ D. rewrite tcp_distance_sum in D.
+  destruct (tcp_decisive_mismatch_b t (spec_sig g)) eqn:DM; [discriminate|].
+  unfold tcp_decisive_mismatch_b in DM. repeat (apply orb_false_iff in DM; destruct DM as [DM ?]).
+  repeat match goal with H : negb _ = false |- _ => apply negb_false_iff in H end.
+  destruct (distance_ttl _ _) as [dt|] eqn:DT; [|discriminate]. cbn [obind] in D.
+  destruct (distance_window_size _ _ _) as [dw|] eqn:DW; [|discriminate]. cbn [obind] in D.
+  inversion D as [SUM]. clear D.
+  pose proof (ttl_some _ _ _ DT) as TS. pose proof (win_some _ _ _ _ DW) as WS.
+  assert (CO2 : c_olen t (spec_sig g) = 0 \/ c_olen t (spec_sig g) = 2) by (unfold c_olen, pen_olen; destruct (_ =? _); auto).
+  assert (CM2 : c_mss t (spec_sig g) = 0 \/ c_mss t (spec_sig g) = 2) by (unfold c_mss, pen_mss; destruct (optfield_inst_b _ _); auto).
+  assert (CW1 : c_wscale t (spec_sig g) <= 1) by (unfold c_wscale, pen_wscale; destruct (optfield_inst_b _ _); lia).
+  assert (dt = 0 /\ c_olen t (spec_sig g) = 0 /\ c_mss t (spec_sig g) = 0 /\ dw = 0) by lia.
+  destruct H2 as (-> & CO & CM & ->).
+  destruct (spec_sig_fields g) as (F1 & F2 & F3 & F4 & F5 & F6 & F7 & F8 & F9).
+  rewrite ?F1, ?F2, ?F3, ?F4, ?F5, ?F6, ?F7, ?F8, ?F9 in *.
+  unfold conforms_seg_b. rewrite R. cbn [andb].
+  rewrite DM. cbn [andb].
+  rewrite (ttl_zero_conf _ _ TT DT). cbn [andb].
+  unfold c_olen in CO. rewrite F3 in CO. destruct (seg_olen g =? t_olen t) eqn:EO; [|unfold pen_olen in CO; discriminate]. cbn [andb].
+  assert (OF : forall sv ov, optfield_inst_b sv ov = true -> conf_optfield sv ov = true).
+  { intros [v|] ov; cbn [optfield_inst_b conf_optfield]; [|reflexivity]. intros E. apply optN_eqb_eq in E. subst. lia. }
+  unfold c_mss in CM. rewrite F4 in CM. destruct (optfield_inst_b (t_mss t) _) eqn:EM; [|unfold pen_mss in CM; discriminate].
+  rewrite (OF _ _ EM). cbn [andb].
+  rewrite (win_zero_conf _ _ _ _ _ DW). cbn [andb].
+  assert (CS : conf_optfield (t_wscale t) (spec_wscale (seg_items g)) = true).
+  { rewrite WN. unfold scale_is_zero in SZ. destruct (t_wscale t) as [[|?]|]; try discriminate. reflexivity. }
+  rewrite CS. cbn [andb].
+  rewrite H1. cbn [andb].
+  rewrite H. rewrite andb_true_r.
+  apply quirks_eqb_eq in H0. unfold conf_quirks.
+  apply forallb_forall. intros q _.
+  destruct (quirk_applies (seg_ver g) q) eqn:AP; [|reflexivity]. cbn [negb orb].
+  rewrite <- qmem_spec_quirks, H0. unfold sig_quirks_for. rewrite qmem_filter, AP. cbn [andb].
+  apply eqb_reflx.
 Qed.
 
 (* ================================================================ the composition *)
@@ -395,7 +419,7 @@ Proof.
   intros EA CERT C KN. unfold conforms_tcp, conforms_tcp_b in C. unfold known_tcp_traffic in KN.
   destruct (seg_of x) as [g|] eqn:SG; [|discriminate].
   pose proof (seg_of_wf x g SG) as WF.
-  unfold known_tcp13 in KN. apply orb_false_iff in KN. destruct KN as [KC KV].
+  unfold known_tcp13 in KN. rename KN into KC.
   assert (R : conf_role k g = true).
   { destruct (conf_role k g) eqn:RR; [reflexivity|]. unfold conforms_seg_b in C. cbv zeta in C. rewrite RR in C. discriminate. }
   assert (K5F : K5 g = false).
@@ -407,7 +431,7 @@ Proof.
   set (tbl := tcp_table db k) in *.
   unfold live1_cert in CERT. apply andb_true_iff in CERT. destruct CERT as [CERT CA].
   apply andb_true_iff in CERT. destruct CERT as [LV CB].
-  pose proof (obs_char k s g WF LV C KV K5F) as OF.
+  pose proof (obs_char k s g WF LV C K5F) as OF.
   assert (NW : no_ws_scale0 s = true).
   { unfold live1_tcp_b in LV. repeat (apply andb_true_iff in LV; destruct LV as [LV ?]). assumption. }
   pose proof (live1_one s (spec_sig g) OF NW) as D1.
@@ -415,25 +439,35 @@ Proof.
   (* harmless entries: the own label, or an entry in front at distance 0 *)
   set (ok := fun p : N * N * tcp_sig =>
                same_label tbl li (fst (fst p))
-               || existsb (fun q => pos_is (fst (fst p)) (snd (fst p)) q && is_zero (tcp_distance (snd q) (spec_sig g)))
+               || existsb (fun q => pos_is (fst (fst p)) (snd (fst p)) q
+                                      && (is_zero (tcp_distance (snd q) (spec_sig g))
+                                          || (scale_is_zero (snd q) && match tcp_distance (snd q) (spec_sig g) with Some 1 => true | _ => false end)))
                           (prefix_before (pos_is li si) (positions tbl))).
+  assert (before_ok : forall p e, In p (prefix_before (pos_is li si) (positions tbl)) ->
+            tcp_distance (snd p) (spec_sig g) = Some e -> cert_before s (snd p) = true -> 1 < e \/ ok p = true).
+  { intros p e PB DP CBF.
+    assert (HIT : forall flag, (is_zero (Some e) || (scale_is_zero (snd p) && match Some e with Some 1 => true | _ => false end)) = flag ->
+                  flag = true -> ok p = true).
+    { intros flag E FT. subst flag. unfold ok. apply orb_true_iff. right.
+      apply existsb_exists. exists p. split; [exact PB|]. unfold pos_is. rewrite !N.eqb_refl, DP. exact FT. }
+    unfold cert_before in CBF. apply orb_true_iff in CBF. destruct CBF as [SEP|SZ].
+    - pose proof (sep_before_sound s (snd p) _ e OF SEP DP) as NE1.
+      destruct (N.eq_dec e 0) as [E0|NE0]; [|left; lia].
+      right. apply (HIT _ eq_refl). subst e. reflexivity.
+    - destruct (N.eq_dec e 0) as [E0|NE0]; [right; apply (HIT _ eq_refl); subst e; reflexivity|].
+      destruct (N.eq_dec e 1) as [E1|NE1]; [|left; lia].
+      right. apply (HIT _ eq_refl). subst e. rewrite SZ. reflexivity. }
   unfold entry_at in EA.
   destruct (scan_min_wins tcp_distance tcp_score tbl (spec_sig g) (pos_is li si) ok (li, si, s) 1 EA D1) as (y & e & INY & DY & SC & YOK).
   - intros p e PB DP. rewrite forallb_forall in CB. specialize (CB p PB). apply orb_true_iff in CB.
     destruct CB as [SL|SEP]; [right; unfold ok; rewrite SL; reflexivity|].
-    pose proof (sep_before_sound s (snd p) _ e OF SEP DP) as NE1.
-    destruct (N.eq_dec e 0) as [E0|NE0]; [|left; lia].
-    right. unfold ok. apply orb_true_iff. right.
-    apply existsb_exists. exists p. split; [exact PB|]. unfold pos_is. rewrite !N.eqb_refl, DP, E0. reflexivity.
+    apply (before_ok p e PB DP SEP).
   - intros p e INP DP.
     destruct (suffix_or_prefix (pos_is li si) (positions tbl) (li, si, s) p EA INP) as [E|[PB|SF]].
     + subst p. cbn [snd] in DP. rewrite D1 in DP. inversion DP. left. lia.
     + rewrite forallb_forall in CB. specialize (CB p PB). apply orb_true_iff in CB.
       destruct CB as [SL|SEP]; [right; unfold ok; rewrite SL; reflexivity|].
-      pose proof (sep_before_sound s (snd p) _ e OF SEP DP) as NE1.
-      destruct (N.eq_dec e 0) as [E0|NE0]; [|left; lia].
-      right. unfold ok. apply orb_true_iff. right.
-      apply existsb_exists. exists p. split; [exact PB|]. unfold pos_is. rewrite !N.eqb_refl, DP, E0. reflexivity.
+      destruct (before_ok p e PB DP SEP) as [LT|OKP]; [left; lia | right; exact OKP].
     + rewrite forallb_forall in CA. specialize (CA p SF). apply orb_true_iff in CA.
       destruct CA as [SL|SEP]; [right; unfold ok; rewrite SL; reflexivity|].
       pose proof (sep_after_sound s (snd p) _ e OF SEP DP) as NE0. left. lia.
@@ -463,7 +497,12 @@ Proof.
         unfold pos_is in PQ. apply andb_true_iff in PQ. destruct PQ as [P1 P2].
         assert (Q1 : fst (fst q) = fst (fst y)) by lia.
         assert (CQ : conforms_tcp_b k (snd q) x = true).
-        { unfold conforms_tcp_b. rewrite SG. apply zero_conforms; [exact WF | exact R |].
-          destruct (tcp_distance (snd q) (spec_sig g)) as [[|?]|]; try discriminate. reflexivity. }
+        { unfold conforms_tcp_b. rewrite SG. apply orb_true_iff in ZD. destruct ZD as [ZD|ZD].
+          - apply zero_conforms; [exact WF | exact R |].
+            destruct (tcp_distance (snd q) (spec_sig g)) as [[|?]|]; try discriminate. reflexivity.
+          - apply andb_true_iff in ZD. destruct ZD as [SZ D1Q].
+            apply one_conforms; [exact WF | exact R | | exact SZ |].
+            + pose proof (of_wscale _ _ OF) as WN. destruct (spec_sig_fields g) as (_ & _ & _ & _ & _ & F6 & _). rewrite F6 in WN. exact WN.
+            + destruct (tcp_distance (snd q) (spec_sig g)) as [[|[| |]]|]; try discriminate. reflexivity. }
         rewrite CQ. unfold label_at. rewrite Q1, NEY. left; reflexivity.
 Qed.
